@@ -1426,6 +1426,148 @@ def _find_function(fn: str, name: str):
     return None
 
 
+# ---------------------------------------------------------------------------------------------
+# C19: what the validation methods read against what `__eq__` compares (lean/KodaModel/Generated/CongrSrc.lean)
+
+OUT_CONGR = os.path.join(os.path.dirname(OUT), "CongrSrc.lean")
+CONGR_TARGETS = [("_internal.py", "_ToTupleStandardValidator"), ("list.py", "ListValidator"), ("set.py", "SetValidator"),
+                 ("tuple.py", "UniformTupleValidator"), ("tuple.py", "NTupleValidator"), ("dictionary.py", "MapValidator"),
+                 ("dictionary.py", "RecordValidator"), ("dictionary.py", "DictValidatorAny"),
+                 ("dataclasses.py", "DataclassValidator"), ("namedtuple.py", "NamedTupleValidator"),
+                 ("typeddict.py", "TypedDictValidator"), ("union.py", "UnionValidator"), ("none.py", "OptionalValidator"),
+                 ("none.py", "NoneValidator"), ("maybe.py", "MaybeValidator"), ("generic.py", "Lazy"),
+                 ("generic.py", "EqualsValidator"), ("dictionary.py", "KeyNotRequired")]
+_VAL_METHODS = {"__call__", "validate_async", "_validate_to_tuple", "_validate_to_tuple_async"}
+
+
+def _congr_class(fn: str, cls: str):
+    tree = ast.parse(open(os.path.join(PKG, fn)).read())
+    for n in tree.body:
+        if isinstance(n, ast.ClassDef) and n.name == cls:
+            return n
+    return None
+
+
+def _congr_methods(c: ast.ClassDef, name: str) -> list:
+    return [i for i in c.body if isinstance(i, (ast.FunctionDef, ast.AsyncFunctionDef)) and i.name == name
+            and not any(isinstance(d, ast.Name) and d.id == "overload" for d in i.decorator_list)]
+
+
+def _self_attrs_read(node: ast.AST) -> set:
+    out = set()
+    for n in ast.walk(node):
+        if (isinstance(n, ast.Attribute) and isinstance(n.value, ast.Name) and n.value.id == "self"
+                and isinstance(n.ctx, ast.Load) and n.attr not in _VAL_METHODS and n.attr != "__class__"):
+            out.add(n.attr)
+    return out
+
+
+def _init_deps(fn_node: ast.FunctionDef) -> Dict[str, set]:
+    """for every attribute `__init__` sets: the constructor parameters its value depends on (data and control
+    dependences, through locals, loops and `.append` / `.add` on attributes) - a conservative over-approximation"""
+    params = fn_node.args.args + fn_node.args.kwonlyargs + ([fn_node.args.vararg] if fn_node.args.vararg else []) + \
+        ([fn_node.args.kwarg] if fn_node.args.kwarg else [])
+    env: Dict[str, set] = {a.arg: {a.arg} for a in params if a.arg != "self"}
+    attr: Dict[str, set] = {}
+
+    def deps(e: ast.AST) -> set:
+        d: set = set()
+        for n in ast.walk(e):
+            if isinstance(n, ast.Name) and n.id in env:
+                d |= env[n.id]
+            if isinstance(n, ast.Attribute) and isinstance(n.value, ast.Name) and n.value.id == "self" and n.attr in attr:
+                d |= attr[n.attr]
+        return d
+
+    def walrus(e: ast.AST, ctrl: set) -> None:
+        for n in ast.walk(e):
+            if isinstance(n, ast.NamedExpr) and isinstance(n.target, ast.Name):
+                env[n.target.id] = deps(n.value) | ctrl
+
+    def run(stmts: list, ctrl: set) -> None:
+        for st in stmts:
+            if isinstance(st, (ast.Assign, ast.AnnAssign)) and getattr(st, "value", None) is not None:
+                walrus(st.value, ctrl)
+                d = deps(st.value) | ctrl
+                for t in (st.targets if isinstance(st, ast.Assign) else [st.target]):
+                    for n in ast.walk(t):
+                        if isinstance(n, ast.Name):
+                            env[n.id] = set(d)
+                        if (isinstance(n, ast.Attribute) and isinstance(n.value, ast.Name) and n.value.id == "self"
+                                and isinstance(n.ctx, ast.Store)):
+                            attr[n.attr] = set(d)
+            elif isinstance(st, ast.For):
+                d = deps(st.iter) | ctrl
+                for n in ast.walk(st.target):
+                    if isinstance(n, ast.Name):
+                        env[n.id] = set(d)
+                run(st.body, ctrl | d)
+                run(st.body, ctrl | d)
+            elif isinstance(st, ast.If):
+                walrus(st.test, ctrl)
+                d = deps(st.test) | ctrl
+                run(st.body, d)
+                run(st.orelse, d)
+            elif isinstance(st, ast.Expr) and isinstance(st.value, ast.Call):
+                c = st.value
+                if (isinstance(c.func, ast.Attribute) and c.func.attr in ("append", "add", "extend", "update")
+                        and isinstance(c.func.value, ast.Attribute) and isinstance(c.func.value.value, ast.Name)
+                        and c.func.value.value.id == "self"):
+                    d = set()
+                    for a in c.args:
+                        walrus(a, ctrl)
+                        d |= deps(a)
+                    attr[c.func.value.attr] = attr.get(c.func.value.attr, set()) | d | ctrl
+    run(fn_node.body, set())
+    return attr
+
+
+def collect_congr() -> List[Tuple[str, List[str], List[str]]]:
+    out = []
+    for fn, cls in CONGR_TARGETS:
+        c = _congr_class(fn, cls)
+        if c is None:
+            out.append((cls, ["<class not found>"], []))
+            continue
+        reads: set = set()
+        for m in _VAL_METHODS:
+            for mm in _congr_methods(c, m):
+                reads |= _self_attrs_read(mm)
+        is_dc = any((isinstance(d, ast.Name) and d.id == "dataclass") or
+                    (isinstance(d, ast.Call) and isinstance(d.func, ast.Name) and d.func.id == "dataclass") for d in c.decorator_list)
+        eqs = _congr_methods(c, "__eq__")
+        if eqs:
+            compared: set = set()
+            for e in eqs:
+                compared |= _self_attrs_read(e)
+        elif is_dc:
+            compared = {i.target.id for i in c.body if isinstance(i, ast.AnnAssign) and isinstance(i.target, ast.Name)}
+        else:
+            compared = set()          # identity comparison: nothing is compared
+        inits = _congr_methods(c, "__init__")
+        attr = _init_deps(inits[-1]) if inits else {}
+        pr: set = set()
+        for a in reads:
+            pr |= attr.get(a, {"attr:" + a})
+        pc: set = set()
+        for a in compared:
+            pc |= attr.get(a, {"attr:" + a})
+        out.append((cls, sorted(pr), sorted(pc)))
+    return out
+
+
+def render_congr() -> str:
+    rows = collect_congr()
+    lines = ["/- GENERATED by harness/pysrc.py from the current source of /repo/koda_validate — do not edit -/", "",
+             "namespace Koda.Src", "",
+             "/-- per validator class: the constructor parameters (or class attributes, `attr:`) that what its validation methods",
+             "    read depends on, and those that what `__eq__` compares depends on -/",
+             "def congr : List (String × List String × List String) := ["]
+    lines.append(",\n".join(f"  ({lstr(c)}, [{', '.join(lstr(x) for x in r)}], [{', '.join(lstr(x) for x in k)}])" for c, r, k in rows))
+    lines += ["]", "", "end Koda.Src", ""]
+    return "\n".join(lines)
+
+
 def render() -> str:
     found = collect()
     lines = ["/- GENERATED by harness/pysrc.py from the current source of /repo/koda_validate — do not edit -/",
@@ -1444,7 +1586,7 @@ def render() -> str:
 
 def regenerate() -> bool:
     changed = False
-    for path, new in ((OUT, render()), (OUT_COERCE, render_coerce()), (OUT_SCALAR, render_scalar()), (OUT_UNION, render_union()), (OUT_LIST, render_list()), (OUT_WRAP, render_wrap()), (OUT_EQ, render_eq()), (OUT_CACHE, render_cache()), (OUT_SEQ, render_seq()), (OUT_NTUPLE, render_ntuple()), (OUT_MAP, render_map()), (OUT_DICTANY, render_dictany())):
+    for path, new in ((OUT, render()), (OUT_COERCE, render_coerce()), (OUT_SCALAR, render_scalar()), (OUT_UNION, render_union()), (OUT_LIST, render_list()), (OUT_WRAP, render_wrap()), (OUT_EQ, render_eq()), (OUT_CACHE, render_cache()), (OUT_SEQ, render_seq()), (OUT_NTUPLE, render_ntuple()), (OUT_MAP, render_map()), (OUT_DICTANY, render_dictany()), (OUT_CONGR, render_congr())):
         old = open(path).read() if os.path.exists(path) else None
         if new != old:
             with open(path, "w") as f:
